@@ -1,9 +1,14 @@
 /-
-L14 (cache part) — the preparation caches of `recursion/src/recursion.rs`.
+L14 (cache part) — the preparation caches of `recursion/src/recursion.rs`, **after the repair of
+findings F10 and F10b** (`fixes/C17-1.diff`, `fixes/C17-2.diff`).
 
 Rust being modelled
 * `aggregation_circuit_fingerprint(circuit)` = `(witness_count, public_flat_len,
-  private_flat_len, ops.len())`                                           → `fingerprint`
+  private_flat_len, ops.len(), structure_digest)` where `structure_digest` is a 64-bit FNV-1a
+  digest of the rendering of `(ops, public_rows, private_input_rows)`
+                                                    → `fingerprint` (counters), `fingerprintX dg`
+  The digest function is a *parameter* `dg` of the model (theorems hold for every `dg`; what
+  is assumed of it is stated as a hypothesis where it is needed).
 * `AggregationPrepCache { circuit_fingerprint, circuit_prover_data, prover }` → `Entry`
   (`circuit_prover_data` and `prover` are both functions of the job the entry was filled for:
   the verification circuit *and* the `ProveNextLayerParams`; the entry therefore records the
@@ -16,22 +21,24 @@ Rust being modelled
       prove with that, overwrite the slot;
     - no slot offered: recompute, nothing stored.
   The comparison reads the circuit only: `params` / `config` are not part of the key.
+* `NextLayerPrepCache { circuit_fingerprint, circuit_prover_data, prover }`, produced by
+  `build_next_layer_prep(circuit', params')` for a job chosen by the caller
 * `prove_next_layer(.., prep : Option<&NextLayerPrepCache>)`               → `Step.next job prep`
-    - `Some(cached)`: prove with `cached` — **no comparison of any kind**;
+    - `Some(cached)` with `cached.circuit_fingerprint` = fingerprint of the current circuit:
+      prove with `cached`;
+    - `Some(cached)` otherwise: **refused** (`Err(InvalidProofShape)`), no proof;
     - `None`: recompute.
-  A `NextLayerPrepCache` is produced by `build_next_layer_prep(circuit', params')` for a job
-  chosen by the caller, so the step records that job.
 * the specification ("uncached"): every step proves with the data prepared for its own job.
 
 The caller may keep any number of cache variables; `Step.agg` names the variable by a number.
 Everything is generic in the type of jobs `J` and of keys `F`; the driver instantiates
-`J = circuit id × params id` and `key = fingerprint of the circuit`.
+`J = circuit id × params id` and `key = extended fingerprint of the circuit`.
 -/
 import P3R.Model.Roles
 
 namespace P3R.Cache
 
-/-- `AggregationCircuitFingerprint`. -/
+/-- The four counters of `AggregationCircuitFingerprint`. -/
 structure Fingerprint where
   witnessCount : Nat
   publicFlatLen : Nat
@@ -39,12 +46,30 @@ structure Fingerprint where
   opsLen : Nat
 deriving DecidableEq, Repr
 
-/-- `aggregation_circuit_fingerprint`. `public_flat_len` / `private_flat_len` are the numbers of
-public / private rows (`runner.rs` rejects a circuit where they differ). -/
+/-- The counters read by `aggregation_circuit_fingerprint`. `public_flat_len` /
+`private_flat_len` are the numbers of public / private rows (`runner.rs` rejects a circuit where
+they differ). -/
 def fingerprint {K} (c : Circuit K) : Fingerprint :=
   ⟨c.witnessCount, c.pubRows.size, c.privRows.size, c.ops.size⟩
 
-/-- `AggregationPrepCache`: the stored fingerprint and the job whose preparation is stored. -/
+/-- What `structure_digest` is computed from: the op list and the two row maps. -/
+abbrev Structure (K : Type) := List (Op K) × List Nat × List Nat
+
+def structureOf {K} (c : Circuit K) : Structure K :=
+  (c.ops.toList, c.pubRows.toList, c.privRows.toList)
+
+/-- `AggregationCircuitFingerprint` after the repair: counters and structure digest. -/
+structure FingerprintX (S : Type) where
+  counters : Fingerprint
+  digest : S
+deriving DecidableEq, Repr
+
+/-- `aggregation_circuit_fingerprint` after the repair, for a digest function `dg`. -/
+def fingerprintX {K S} (dg : Structure K → S) (c : Circuit K) : FingerprintX S :=
+  ⟨fingerprint c, dg (structureOf c)⟩
+
+/-- `AggregationPrepCache` / `NextLayerPrepCache`: the stored fingerprint and the job whose
+preparation is stored. -/
 structure Entry (F J : Type) where
   key : F
   job : J
@@ -64,11 +89,17 @@ def Step.job {J} : Step J → J
   | .agg j _ => j
   | .next j _ => j
 
+/-- Every job a step mentions: its own and the one its prepared cache was built for. -/
+def Step.mentioned {J} : Step J → List J
+  | .agg j _ => [j]
+  | .next j none => [j]
+  | .next j (some j') => [j, j']
+
 /-- What one call did: whether it proved with stored data, and for which job the data it
-proved with had been prepared. -/
+proved with had been prepared; `used = none`: the call was refused with an error. -/
 structure StepOut (J : Type) where
   hit : Bool
-  used : J
+  used : Option J
 deriving DecidableEq, Repr
 
 /-- The caller's cache variables (absent = `None`). -/
@@ -83,15 +114,16 @@ variable {F J : Type} [DecidableEq F]
 
 /-- One call. -/
 def step (key : J → F) (s : Slots F J) : Step J → Slots F J × StepOut J
-  | .agg job none => (s, ⟨false, job⟩)
+  | .agg job none => (s, ⟨false, some job⟩)
   | .agg job (some k) =>
     match s.get k with
     | some e =>
-      if e.key = key job then (s, ⟨true, e.job⟩)
-      else (s.set k ⟨key job, job⟩, ⟨false, job⟩)
-    | none => (s.set k ⟨key job, job⟩, ⟨false, job⟩)
-  | .next job none => (s, ⟨false, job⟩)
-  | .next _ (some j') => (s, ⟨true, j'⟩)
+      if e.key = key job then (s, ⟨true, some e.job⟩)
+      else (s.set k ⟨key job, job⟩, ⟨false, some job⟩)
+    | none => (s.set k ⟨key job, job⟩, ⟨false, some job⟩)
+  | .next job none => (s, ⟨false, some job⟩)
+  | .next job (some j') =>
+    if key j' = key job then (s, ⟨true, some j'⟩) else (s, ⟨false, none⟩)
 
 /-- A sequence of calls. -/
 def run (key : J → F) : Slots F J → List (Step J) → Slots F J × List (StepOut J)
@@ -103,5 +135,8 @@ def run (key : J → F) : Slots F J → List (Step J) → Slots F J × List (Ste
 
 /-- The specification: every call proves with the data prepared for its own job. -/
 def uncached (h : List (Step J)) : List J := h.map Step.job
+
+/-- Every job mentioned by a history. -/
+def mentioned (h : List (Step J)) : List J := h.flatMap Step.mentioned
 
 end P3R.Cache
